@@ -11,7 +11,11 @@
  *
  * Slots 0..NSLOT-1 hold secondary streams; slot -1 names the primary stream;
  * an empty slot is ABT_XSTREAM_NULL (the API must reject it).                      */
+#ifdef WB_STREAM_C
+#include "stream.c" /* white-box build: reach the static list functions (mode `wbstale`) */
+#else
 #include "abti.h"
+#endif
 #include <pthread.h>
 #include <stdio.h>
 #include <stdlib.h>
@@ -571,10 +575,42 @@ static int replace_mode(int argc, char **argv)
     return rc == ABT_SUCCESS ? 0 : 1;
 }
 
+#ifdef WB_STREAM_C
+/* The latent path of xstream_add_xstream_list: insertion in front of the head does not write
+ * p_newxstream->p_prev; xstream_change_rank leaves the moved node's old p_prev in place.  Not
+ * reachable through the API (the primary stream holds rank 0 at the head for ever), so the
+ * static functions are called on a fabricated list [a(rank 3), b(rank 5)]: move b to rank 1. */
+static int wbstale_mode(void)
+{
+    static ABTI_global g;
+    static ABTI_xstream a, b;
+    memset(&g, 0, sizeof g);
+    ABTD_spinlock_clear(&g.xstream_list_lock);
+    g.max_xstreams = 64;
+    a.rank = 3;
+    b.rank = 5;
+    a.p_prev = NULL;
+    a.p_next = &b;
+    b.p_prev = &a;
+    b.p_next = NULL;
+    g.p_xstream_head = &a;
+    g.num_xstreams = 2;
+    ABT_bool ok = xstream_change_rank(&g, &b, 1);
+#define NM(p) ((p) == &a ? "a" : (p) == &b ? "b" : (p) == NULL ? "NULL" : "?")
+    printf("wbstale granted=%d head=%s b.rank=%d b.prev=%s b.next=%s a.prev=%s a.next=%s\n", ok == ABT_TRUE,
+           NM(g.p_xstream_head), b.rank, NM(b.p_prev), NM(b.p_next), NM(a.p_prev), NM(a.p_next));
+    return 0;
+}
+#endif
+
 int main(int argc, char **argv)
 {
     int rc;
     setvbuf(stdout, NULL, _IOLBF, 0);
+#ifdef WB_STREAM_C
+    if (argc >= 2 && strcmp(argv[1], "wbstale") == 0)
+        return wbstale_mode();
+#endif
     if (ABT_init(0, NULL) != ABT_SUCCESS) {
         printf("init failed\n");
         return 2;
